@@ -5,6 +5,7 @@ mod c09;
 mod proc;
 mod c12;
 mod c20;
+mod c06;
 
 fn main() {
     let argv: Vec<String> = std::env::args().collect();
@@ -17,6 +18,7 @@ fn main() {
         "c10" => c09::run_c10(&a),
         "c12" => c12::run(&a),
         "c20" => c20::run(&a),
+        "c06" => c06::run(&a),
         x => { eprintln!("unknown subcommand {x}"); std::process::exit(2); }
     }
 }
